@@ -33,6 +33,8 @@ RULE = ("cases = one MPCalContext with 1-5 resources drawn from 15 kinds (local,
         "Non-trivial = at least 2 resource kinds, a write before the failure and at least one failing attempt; distinct by canonical case text.")
 
 PC0 = "A.l"
+# kinds run against the real code with the implementation-side oracle only (no Coq model of them here)
+NOMODEL = ("crdt", "twopc", "fd", "placeholder")
 
 # ------------------------------------------------------------------------------------------ values
 
@@ -146,6 +148,12 @@ def init_obj(d):
         return {"sent": []}
     if k in ("tcp_local", "relaxed_local"):
         return {"q": []}
+    if k == "crdt":
+        return {"v": 0}
+    if k == "twopc":
+        return {"v": d["init"]}
+    if k in ("fd", "placeholder"):
+        return {}
     raise ValueError(k)
 
 
@@ -244,13 +252,37 @@ def obj_step(kind, o, op, path, val):
         if not o["q"]:
             raise Block()
         return o["q"].pop(0)
+    if kind == "crdt":           # grow-only counter, one node: a write adds, a read yields the sum
+        if path:
+            raise Crash()
+        if op == "r":
+            return o["v"]
+        if isinstance(val, bool) or not isinstance(val, int):
+            raise Crash()
+        o["v"] += val
+        return None
+    if kind == "twopc":          # an unreplicated 2PC variable is a variable
+        if path:
+            raise Crash()
+        if op == "r":
+            return o["v"]
+        o["v"] = val
+        return None
+    if kind == "fd":             # the monitor is unreachable: the detector says "failed"
+        if op != "r" or len(path) != 1:
+            raise Crash()
+        return True
+    if kind == "placeholder":
+        raise Crash()
     raise ValueError(kind)
 
 
 def obj_snap(kind, o, keys):
-    if kind in ("local", "dummy", "shared"):
+    if kind in ("local", "dummy", "shared", "crdt", "twopc"):
         return o["v"]
-    if kind in ("inchan", "custominchan"):
+    if kind == "fd":
+        return True
+    if kind in ("inchan", "custominchan", "placeholder"):
         return None
     if kind in ("tcp_local", "relaxed_local"):
         return T(*[None for _ in keys])
@@ -324,6 +356,7 @@ class Ref:
         wrote_before, sent_nontx = False, []
         outcome = None
         touched = set()
+        touched_elems = set()
         fault = at.get("fault")
         for k, op in enumerate(at["ops"]):
             try:
@@ -343,6 +376,8 @@ class Ref:
                 else:
                     name, path = op[1], op[2]
                     kind = self.kinds[name]
+                    if path:
+                        touched_elems.add((name, json.dumps(path[0])))
                     if op[0] == "r":
                         v = obj_step(kind, st[name], "r", path, None)
                         last = v; tr.append(v)
@@ -358,7 +393,8 @@ class Ref:
                 outcome = 2; break
         if outcome is None:
             # only resources touched by the section take part in the commit protocol
-            outcome = 1 if set(at.get("pcfail") or []) & touched else 0
+            refused_elems = set((e[0], json.dumps(e[1])) for e in (at.get("epcfail") or []))
+            outcome = 1 if (set(at.get("pcfail") or []) & touched) or (refused_elems & touched_elems) else 0
         # the two kinds that are non-transactional by design: SingleOutputChan.Abort always panics,
         # relaxedMailboxesRemote.Abort panics after a send; what was sent stays sent
         panics = [self.kinds[n] for n in sorted(touched) if self.kinds[n] == "singleout"] + [k for k in sent_nontx if k == "relaxed"]
@@ -376,7 +412,7 @@ class Ref:
 # ------------------------------------------------------------------------------------------ generation
 
 VALS = [0, 1, 2, 7, -3, "a", "b", "msg", True, None]
-KEYS = [1, 2, "k"]
+KEYS = [1, 2, "k", 3]
 
 
 def gen_val(rng, depth=0):
@@ -411,12 +447,13 @@ def paths_of(v):
 
 KIND_WEIGHTS = [("local", 5), ("inchan", 3), ("outchan", 3), ("filesystem", 2), ("incmap_local", 3), ("hashmap_local", 1),
                 ("persist", 2), ("incmap_persist", 1), ("plog", 2), ("shared", 2), ("dummy", 1), ("custominchan", 1),
-                ("singleout", 0.6), ("tcp", 0.5), ("relaxed", 0.4), ("tcp_local", 0.5), ("relaxed_local", 0.3)]
+                ("singleout", 0.6), ("tcp", 0.5), ("relaxed", 0.4), ("tcp_local", 0.5), ("relaxed_local", 0.3),
+                ("crdt", 0.7), ("twopc", 0.7), ("fd", 0.3), ("placeholder", 0.1)]
 
 
 def gen_res(rng, name, kind):
     d = {"name": name, "kind": kind}
-    if kind in ("local", "persist", "shared", "incmap_local", "incmap_persist"):
+    if kind in ("local", "persist", "shared", "incmap_local", "incmap_persist", "twopc"):
         d["init"] = gen_struct(rng)
     elif kind == "dummy":
         d["init"] = rng.choice(VALS)
@@ -425,7 +462,7 @@ def gen_res(rng, name, kind):
     elif kind == "filesystem":
         d["files"] = [["f1", "old1"]] + ([["f2", "old2"]] if rng.random() < 0.5 else [])
     elif kind == "hashmap_local":
-        d["table"] = [[k, gen_struct(rng)] for k in KEYS[:rng.randint(1, 3)]]
+        d["table"] = [[k, gen_struct(rng)] for k in KEYS[:rng.randint(1, 4)]]
     return d
 
 
@@ -482,6 +519,15 @@ def gen_op(rng, ref, d, malformed):
         return ["r", name, [rng.randint(1, n)]]
     if kind in ("tcp", "relaxed"):
         return ["w", name, [0], rng.choice([21, 22, "net"])]
+    if kind == "crdt":
+        return ["r", name, []] if rng.random() < 0.4 else ["w", name, [], rng.randint(1, 3)]
+    if kind == "twopc":
+        r = rng.random()
+        return ["r", name, []] if r < 0.4 else ["w", name, [], gen_val(rng)] if r < 0.85 else ["wl", name, []]
+    if kind == "fd":
+        return ["r", name, [0]]
+    if kind == "placeholder":
+        return ["r", name, []]
     if kind in ("tcp_local", "relaxed_local"):
         if st["q"] or rng.random() < 0.15:
             return ["r", name, [0]]
@@ -541,6 +587,29 @@ def gen_case(rng, malformed=False):
             ref.attempt(dict(at, env=[]))
             case["attempts"].append(at)
         natt += 3
+    # map pattern: one section touches 2-4 elements of the same map and the PreCommit of some of them (chosen by
+    # key: first, middle, last in whatever order the map visits them) refuses; nothing of it may commit
+    maps = [d for d in res if d["kind"] in ("incmap_local", "hashmap_local", "incmap_persist")]
+    if maps and not malformed and rng.random() < 0.7:
+        d = rng.choice(maps)
+        keys = [kv[0] for kv in d["table"]] if d["kind"] == "hashmap_local" else list(KEYS)
+        rng.shuffle(keys)
+        keys = keys[:rng.randint(min(2, len(keys)), len(keys))]
+        ops = []
+        for k in keys:
+            ops.append(["w", d["name"], [k], gen_val(rng)] if rng.random() < 0.8 else ["r", d["name"], [k]])
+        others = [x for x in res if x["kind"] in ("local", "outchan", "persist")]
+        if others and rng.random() < 0.5:
+            o = rng.choice(others)
+            ops.insert(rng.randint(0, len(ops)), ["w", o["name"], [], rng.choice([1, "v"])])
+        refuse = [k for k in keys if rng.random() < 0.4] or [rng.choice(keys)]
+        at = {"env": [], "ops": ops, "fault": None, "pcfail": [], "epcfail": [[d["name"], k] for k in refuse]}
+        ref.attempt(at)
+        case["attempts"].append(at)
+        at2 = {"env": [], "ops": [list(o) for o in ops], "fault": None, "pcfail": []}
+        ref.attempt(at2)
+        case["attempts"].append(at2)
+        natt += 2
     while len(case["attempts"]) < natt:
         at = {"env": [], "ops": [], "fault": None, "pcfail": []}
         # environment
@@ -584,6 +653,7 @@ def gen_case(rng, malformed=False):
             # failure injection
             r = rng.random()
             acts = [k for k, op in enumerate(at["ops"]) if op[0] in ("r", "w", "wl")]
+            acts = [k for k in acts if ref.kinds[at["ops"][k][1]] != "placeholder"]
             if r < 0.3 and acts:
                 k = rng.choice(acts)
                 plen = len(at["ops"][k][2])
@@ -594,8 +664,13 @@ def gen_case(rng, malformed=False):
                 at["fault"] = {"op": k, "call": j}
             elif r < 0.42:
                 at["ops"].insert(rng.randint(0, len(at["ops"])), ["await", False])
-            elif r < 0.6:
+            elif r < 0.55:
                 at["pcfail"] = sorted(set(rng.choice(res)["name"] for _ in range(rng.randint(1, 2))))
+            elif r < 0.62:
+                elems = [[op[1], op[2][0]] for op in at["ops"] if op[0] in ("r", "w", "wl") and op[2]
+                         and ref.kinds[op[1]] in ("incmap_local", "hashmap_local", "incmap_persist")]
+                if elems:
+                    at["epcfail"] = [rng.choice(elems)]
             elif r < 0.62 and malformed:
                 at["ops"].insert(rng.randint(0, len(at["ops"])), ["assert", False])
         # run on the reference to know what happens, and whether to schedule a retry
@@ -651,7 +726,7 @@ def gen_case(rng, malformed=False):
         for d in res:
             k = d["kind"]
             o = ref.state[d["name"]]
-            if k in ("local", "persist", "dummy"):
+            if k in ("local", "persist", "dummy", "crdt", "twopc"):
                 ops.append(["r", d["name"], []])
             elif k == "shared" and not o["other"]:
                 ops.append(["r", d["name"], []])
@@ -738,8 +813,9 @@ def coq_attempt(at):
     if f:
         nacts = sum(1 for op in at["ops"][:f["op"]] if is_act(op))
         fl = ["None"] * nacts + ["Some %s" % vlib.coq_nat(f["call"])]
-    return "mkAttempt %s %s %s %s" % (vlib.coq_list(env), vlib.coq_list(ops), vlib.coq_list(fl),
-                                      vlib.coq_list([vlib.coq_str(n) for n in at.get("pcfail", [])]))
+    return "mkAttempt %s %s %s %s %s" % (vlib.coq_list(env), vlib.coq_list(ops), vlib.coq_list(fl),
+                                         vlib.coq_list([vlib.coq_str(n) for n in at.get("pcfail", [])]),
+                                         vlib.coq_list(["(%s, %s)" % (vlib.coq_str(e[0]), coq_val(canon(e[1]))) for e in at.get("epcfail") or []]))
 
 
 def to_coq(case, results):
@@ -786,7 +862,7 @@ def oracle(case, results):
         ks = kinds_sig(case, at)
         gsnap = canon(T(*(got.get("snap") or [])))["t"]
         gtr = canon(T(*(got.get("tr") or [])))["t"]
-        how = "fault" if at.get("fault") else "pcfail" if at.get("pcfail") else "await" if ["await", False] in at["ops"] else "inherent"
+        how = "fault" if at.get("fault") else "pcfail" if at.get("pcfail") else "elem-pcfail" if at.get("epcfail") else "await" if ["await", False] in at["ops"] else "inherent"
         if exp_out == 3:
             stats["abort_panic"] += 1
             kind = sorted(set(info["sent_nontx"]))[0]
@@ -867,7 +943,9 @@ def run(ctx):
         for d in c["res"]:
             kinds[d["kind"]] = kinds.get(d["kind"], 0) + 1
         for at in c["attempts"]:
-            how = "fault-call%d" % at["fault"]["call"] if at.get("fault") else "pcfail" if at.get("pcfail") else "await-false" if ["await", False] in at["ops"] else "none"
+            how = "fault-call%d" % at["fault"]["call"] if at.get("fault") else "pcfail" if at.get("pcfail") else "elem-pcfail-%dof%d" % (
+                len(at["epcfail"]), len(set(json.dumps(op[2][0]) for op in at["ops"] if op[0] in ("r", "w", "wl") and op[2] and op[1] == at["epcfail"][0][0]))) if at.get("epcfail") \
+                else "await-false" if ["await", False] in at["ops"] else "none"
             faultpos[how] = faultpos.get(how, 0) + 1
         if r.get("err"):
             ctx.failures.append({"signature": "harness-error:" + r["err"][:40], "what": "harness reported " + r["err"],
@@ -892,7 +970,8 @@ def run(ctx):
     # tie B: the model evaluated inside Coq on the same cases, against what the implementation did
     if ctx.coq_ok:
         from concurrent.futures import ThreadPoolExecutor
-        ok_cases = [c for c in cases if not byid[c["id"]].get("err")]
+        ok_cases = [c for c in cases if not byid[c["id"]].get("err") and not any(d["kind"] in NOMODEL for d in c["res"])]
+        ctx.extra["oracle_only_cases"] = sum(1 for c in cases if any(d["kind"] in NOMODEL for d in c["res"]))
         shard = 100 if ctx.tier == "quick" else 400
         parts = [ok_cases[s:s + shard] for s in range(0, len(ok_cases), shard)]
 
